@@ -2,6 +2,7 @@ package main
 
 import (
 	"flag"
+	"golang.org/x/tools/go/ssa"
 	"fmt"
 	"os"
 	"regexp"
@@ -29,10 +30,25 @@ func main() {
 		cmdLemmas(os.Args[2:])
 	case "check":
 		cmdCheck(os.Args[2:])
+	case "frames":
+		cmdFrames(os.Args[2:])
+	case "copydraft":
+		prog, err := LoadProgram("/repo", "./...")
+		if err != nil {
+			fmt.Fprintln(os.Stderr, err)
+			os.Exit(2)
+		}
+		draftCopies(prog)
 	default:
+		if f, ok := extraCmds[os.Args[1]]; ok {
+			f(os.Args[2:])
+			return
+		}
 		usage()
 	}
 }
+
+var extraCmds = map[string]func([]string){}
 
 func cmdLemmas(args []string) {
 	var obs []*Obligation
@@ -159,3 +175,99 @@ func cmdVerify(args []string) {
 	}
 }
 
+
+func cmdFrames(args []string) {
+	fs := flag.NewFlagSet("frames", flag.ExitOnError)
+	repo := fs.String("repo", "/repo", "repository root")
+	id := fs.String("p", "C09", "property id")
+	filt := fs.String("f", "", "regexp on obligation name")
+	verbose := fs.Bool("v", false, "print passing obligations too")
+	dump := fs.String("dump", "", "print the mod summaries of functions matching this regexp")
+	_ = fs.Parse(args)
+	t0 := time.Now()
+	prog, err := LoadProgram(*repo, "./...")
+	if err != nil {
+		fmt.Fprintln(os.Stderr, err)
+		os.Exit(2)
+	}
+	fp, err := LoadFrameProg(*repo)
+	if err != nil {
+		fmt.Fprintln(os.Stderr, err)
+		os.Exit(2)
+	}
+	fmt.Printf("loaded+solved in %.1fs (%d module functions)\n", time.Since(t0).Seconds(), len(fp.funcs))
+	if *dump != "" {
+		dre := regexp.MustCompile(*dump)
+		var roots []*ssa.Function
+		for _, f := range fp.funcs {
+			if dre.MatchString(f.String()) {
+				roots = append(roots, f)
+			}
+		}
+		fp.Solve(roots)
+		fmt.Printf("solved: %d reachable functions, %d analysis steps, %.1fs\n", fp.reachable, fp.steps, time.Since(t0).Seconds())
+		for _, f := range fp.funcs {
+			if !dre.MatchString(f.String()) {
+				continue
+			}
+			sum := fp.sum[f]
+			fmt.Printf("%s  params=%v\n", f.String(), fp.paramNames(f))
+			for _, o := range sum.writes.sorted() {
+				w := sum.witness[o]
+				fmt.Printf("   writes %-22s at %s via %s\n", o, fp.fset.Position(w.Pos), w.Via)
+			}
+			fmt.Printf("   ret %v\n", sum.ret.sorted())
+			for k, v := range sum.links {
+				fmt.Printf("   link %s <- %v\n", k, v.sorted())
+			}
+		}
+		return
+	}
+	obs, notes := frameObligations(prog, fp, *id)
+	var re *regexp.Regexp
+	if *filt != "" {
+		re = regexp.MustCompile(*filt)
+	}
+	bad := 0
+	for _, o := range obs {
+		if re != nil && !re.MatchString(o.Name) {
+			continue
+		}
+		if !o.OK {
+			bad++
+			fmt.Printf("FAIL %s\n     %s\n     at %s\n", o.Name, o.Detail, o.Witness)
+		} else if *verbose {
+			fmt.Printf("ok   %s\n", o.Name)
+		}
+	}
+	for _, n := range notes {
+		fmt.Println("note:", n)
+	}
+	fmt.Printf("%d frame obligations, %d failed\n", len(obs), bad)
+}
+
+func init() {
+	extraCmds["copies"] = func(args []string) {
+		repo := "/repo"
+		if len(args) > 0 {
+			repo = args[0]
+		}
+		prog, err := LoadProgram(repo, "./...")
+		if err != nil {
+			fmt.Fprintln(os.Stderr, err)
+			os.Exit(2)
+		}
+		bad := 0
+		n := 0
+		for _, id := range []string{"C10"} {
+			for _, o := range copyObligations(prog, id) {
+				n++
+				if !o.OK {
+					bad++
+					fmt.Printf("FAIL %s: %s\n", o.Name, o.Detail)
+				}
+			}
+		}
+		fmt.Printf("%d copy obligations, %d failed\n", n, bad)
+	}
+}
